@@ -66,6 +66,7 @@ def jobs(tier, seed):
     others = ['x86-rt', 'x86-sse42-ct', 'x86-avx2-ct', 'nostd']
     for v2 in others:
         Ls = (15, 16, 17, 32, 33) if tier == 'quick' else (15, 16, 17, 31, 32, 33, 47, 48, 64, 70)
+        if tier == 'quick' and v2 == 'x86-avx2-ct': Ls = Ls + (64, 65, 70)        # two vector widths, without the dispatcher's CPU/schedule fan-out
         if v2 == 'nostd': Ls = (9,)
         for L in Ls:
             jb = product_job(P, f'target-L{L}-swar-vs-{v2}', G, sc('req', L, prefix=b'GET ', suffix=b' HTTP/1.1\r\n\r\n', api='parse', cap=1, fixed={i: NOSP for i in range(L)}), bud,
